@@ -206,10 +206,22 @@ fn check_vw_line(inp: &[P], out: &[P], idx: Option<&[usize]>, cx: &Ctx, obs: &mu
         s.windows(2).all(|w| w[0] != w[1])
     };
     if idx.is_some() || distinct {
+        // tolerance: relative to the SIZE of the line (its coordinate differences are what an area is made of), plus the
+        // rounding of one coordinate times that size - not the square of the distance from the origin, which would hide any
+        // error of a line far from the origin
+        let diam = {
+            let (mut lo, mut hi) = ((f64::INFINITY, f64::INFINITY), (f64::NEG_INFINITY, f64::NEG_INFINITY));
+            for p in inp {
+                lo = (lo.0.min(p.0), lo.1.min(p.1));
+                hi = (hi.0.max(p.0), hi.1.max(p.1));
+            }
+            (hi.0 - lo.0).max(hi.1 - lo.1).max(0.0)
+        };
+        let tol = 1e-12 * diam * diam + 8.0 * f64::EPSILON * cx.extent * diam;
         for w in ix.windows(3) {
             let a = tri_area(inp[w[0]], inp[w[1]], inp[w[2]]);
             obs.expect(
-                a > cx.eps * (1.0 - 1e-9) - 1e-12 * cx.extent * cx.extent,
+                a > cx.eps * (1.0 - 1e-9) - tol,
                 &key("retained-vertex-with-area<=eps"),
                 || format!("vertex {} spans area {a} with retained neighbours {} and {}; {}", w[1], w[0], w[2], desc()),
             );
